@@ -388,3 +388,33 @@ Proof.
       destruct e as [e|]; injection H as <- <-; exact Hc.
     + unfold append in H. apply (insert_cnt u) in H. exact H.
 Qed.
+
+(* ==== _insert_latest reports "nothing changed" (max_latest_index = -1) only when nothing changed ==== *)
+Lemma latest_item_max k st it st' : latest_item k st it = (st', None) -> 0 <= l_max st'.
+Proof.
+  unfold latest_item. intros H. destruct it as [o|m].
+  - destruct (latest_available_moment (l_ms st) o k <? Z.of_nat k) eqn:E1.
+    + injection H as <-. simpl. lia.
+    + destruct (_ <? Z.of_nat (length (l_ms st))).
+      * destruct (nth_error _ _); [|discriminate]. destruct (with_operation _ _); [|discriminate].
+        injection H as <-. simpl. apply Z.ltb_ge in E1. lia.
+      * injection H as <-. simpl. lia.
+  - injection H as <-. simpl. lia.
+Qed.
+
+Lemma latest_items_max k its : forall st st', latest_items k st its = (st', None) -> st' = st \/ 0 <= l_max st'.
+Proof.
+  induction its as [|it r IH]; intros st st' H; simpl in H.
+  - injection H as <-. left. reflexivity.
+  - destruct (latest_item k st it) as [st1 [e1|]] eqn:E1; [discriminate|].
+    apply latest_item_max in E1. destruct (IH _ _ H) as [->|Hm]; right; assumption.
+Qed.
+
+Lemma latest_batches_max k bs : forall st st', latest_batches k st bs = (st', None) -> st' = st \/ 0 <= l_max st'.
+Proof.
+  induction bs as [|b r IH]; intros st st' H; simpl in H.
+  - injection H as <-. left. reflexivity.
+  - destruct (latest_items k st b) as [st1 [e1|]] eqn:E1; [discriminate|].
+    apply latest_items_max in E1. destruct (IH _ _ H) as [->|Hm]; [|right; exact Hm].
+    destruct E1 as [->|E1]; [left; reflexivity|right; exact E1].
+Qed.
